@@ -158,6 +158,13 @@ def run_property(pid, tier, jobs, *, native_len, timeout_s, functions, assumptio
         print("  " + text)
     for key, text in known_hit:
         print("KNOWN-FINDING: property=%s %s" % (pid, text))
+    # corpus reach: productions of the specification grammar that no sentence within the bound uses
+    unreached = []
+    for j in accepted:
+        for (a, i), need in C.production_reach(j.spec.cfg, j.start).items():
+            if need is None or need > j.n:
+                unreached.append("%s/%s: production %s#%d needs a sentence of %s tokens (bound %d)" % (j.g.name, j.start, a, i, need, j.n))
+    unreached = sorted(set(unreached))
     wall = time.time() - t0
     grammars = sorted({j.g.name for j in accepted})
     cov = {
@@ -179,6 +186,7 @@ def run_property(pid, tier, jobs, *, native_len, timeout_s, functions, assumptio
         "states_meaning": "sum over harnesses of CBMC program-expression steps; transitions = generated VCCs",
         "inconclusive": inconclusive,
         "known_findings_hit": [k for k, _ in known_hit],
+        "productions_not_reached_within_bound": unreached,
         "explanation": level_note_extra,
     }
     K.write_evidence(pid, tier, "model_checking", cov, assumptions, wall, violations=nviol)
